@@ -427,18 +427,41 @@ def run_loader(text, fmt, thr):
 
     trace = []
     orig = {}
+    keep = []  # keep returned objects alive so that id() stays unique
+    fixret = {}
+    corr = {}
+    first = {}
+    short = {"_fix_obasis_orca": "orca", "_fix_obasis_psi4": "psi4_10", "_fix_obasis_turbomole": "turbomole",
+             "_fix_obasis_normalize_contractions": "unnorm", "_fix_mo_coeffs_psi4": "psi4_132",
+             "_fix_mo_coeffs_cfour": "cfour"}
 
     def wrap_norm(f):
         def g(*a, **k):
             r = f(*a, **k)
-            trace.append(("norm", bool(r)))
+            if "basis" not in first:
+                first["basis"], first["ca"] = a[0], a[2]
+            bname = fixret.get(id(a[0]), "raw" if a[0] is first["basis"] else "unknown")
+            if a[2] is first["ca"]:
+                cname = "raw"
+            else:
+                cname = "unknown"
+                for nm, c in corr.items():
+                    if a[2].shape == first["ca"].shape and np.allclose(a[2] * c[:, None], first["ca"], rtol=1e-12, atol=0):
+                        cname = nm
+            trace.append(("norm", bool(r), bname, cname))
             return r
         return g
 
     def wrap_fix(name, f):
         def g(*a, **k):
             r = f(*a, **k)
-            trace.append(("fix", name, r is not None))
+            trace.append(("fix", short[name], r is not None))
+            if r is not None:
+                keep.append(r)
+                if name.startswith("_fix_obasis"):
+                    fixret[id(r)] = short[name]
+                else:
+                    corr[short[name]] = np.asarray(r, float)
             return r
         return g
 
